@@ -41,6 +41,8 @@ UDS_KINDS = {
     "uds-h1": ({"uds": "/run/sim.sock"}, "http", "http/1.1"),
     "uds-tls-h1": ({"uds": "/run/sim.sock"}, "https", "http/1.1"),
     "uds-tls-h2": ({"uds": "/run/sim.sock", "http2": True}, "https", "h2"),
+    # HTTP/1.1 disabled: HTTP/2 is spoken over TLS although the server's ALPN answer is not h2 (the peer model detects the protocol from the first bytes)
+    "tls-h2-forced": ({"http2": True, "http1": False}, "https", "http/1.1"),
 }
 
 
